@@ -459,6 +459,12 @@ def opHexClaim (inp : Json) : Except String Json := do
     let back := String.ofList ((Hex.claimToHex slots).map Char.ofNat)
     pure (okJ (Json.mkObj [("slots", Json.arr (slots.map fun n => Json.str (toString n)).toArray), ("hex", Json.str back)]))
 
+/-- validateCompSignature: the signature's spelling, with the decompression of its 64 bytes as an oracle bit -/
+def opHexSig (inp : Json) : Except String Json := do
+  let s ← jstr inp "s"
+  let dec ← (← inp.getObjVal? "decompresses").getBool?
+  pure (if Hex.compSigOk (fun _ => dec) (s.toList.map Char.toNat) then okJ (Json.str "ok") else errJ "err")
+
 /-- hex.DecodeString / EncodeToString -/
 def opHexBytes (inp : Json) : Except String Json := do
   let s ← jstr inp "s"
@@ -724,6 +730,7 @@ def handle (k : Pos.Consts) (op : String) (inp : Json) : Except String Json :=
   | "path.history" => opPathHistory k inp
   | "hex.claim" => opHexClaim inp
   | "hex.bytes" => opHexBytes inp
+  | "hex.sig" => opHexSig inp
   | "cred.view" => opCredView inp
   | "did.auth" => opDidAuth inp
   | "ctx.paths" => opCtxPaths inp
